@@ -30,6 +30,8 @@ pub struct Scenario {
 
 thread_local! {
     static EVENT_INTERVAL: std::cell::Cell<u32> = const { std::cell::Cell::new(61) };
+    /// deliberate application-handler panics seen in the current run
+    static DELIBERATE: std::cell::Cell<u32> = const { std::cell::Cell::new(0) };
     /// the run this thread is executing (for the crash oracle)
     static CURRENT: RefCell<Option<(&'static Scenario, RunInput)>> = const { RefCell::new(None) };
     static PANICS: RefCell<Vec<String>> = const { RefCell::new(Vec::new()) };
@@ -58,6 +60,17 @@ pub fn late_violation(class: &str, key: &str, msg: String) {
 pub fn install_panic_hook() {
     std::panic::set_hook(Box::new(|info| {
         let msg = format!("{info}");
+        // the one panic a scenario raises on purpose: the application's own handler panicking on a
+        // request (world::DELIBERATE_PANIC). anemo propagates it - the connection manager unwraps the
+        // JoinError of the connection's handler - and the node goes down; that consequence is not
+        // a finding either. Everything else is.
+        if msg.contains(crate::world::DELIBERATE_PANIC) {
+            DELIBERATE.with(|d| d.set(d.get() + 1));
+            return;
+        }
+        if DELIBERATE.with(|d| d.get()) > 0 && msg.contains("JoinError::Panic") {
+            return;
+        }
         PANICS.with(|p| p.borrow_mut().push(msg));
     }));
     install_crash_oracle();
@@ -161,6 +174,7 @@ pub fn execute(scen: &'static Scenario, input: RunInput) -> RunOutput {
     CURRENT.with(|c| *c.borrow_mut() = Some((scen, input.clone())));
     AFTER_TEARDOWN.with(|a| a.borrow_mut().clear());
     LATE_VIOLATION.with(|l| *l.borrow_mut() = None);
+    DELIBERATE.with(|d| d.set(0));
     anemo::verif::set_active(true);
     crate::vclock::activate();
     let sched = SchedMode::for_run(&input);
